@@ -53,7 +53,8 @@ PROPS = {
         lean_modules=["PalomaModel.Props.C02"], gen=["Consts.lean"],
         harness_test="TestC02",
         n_quick=150, n_thorough=2000, thorough_seeds=8, timeout_quick=900,
-        spec_ops=[],
+        # every observable of the oracle driver (cursor, observed flags, vote lists, minted total) is the property's own subject
+        spec_ops=["vote", "endblock", "endblock50", "override"],
         rule="per case: fresh skyway keeper fixture with 5 validators; 45 ops: votes (random validator or bursts of 2-4 validators, next/stale/gapped nonce, up to 3 competing deposit claims per nonce incl. one the handler cannot apply, "
              "occasionally a remote height below an earlier one), end-blocks that first install a fresh power table (equal / tiny / random powers, extra outside power) and then tally (every 4th one at a multiple of 50: validator-nonce catch-up), "
              "governance nonce overrides to last / last-1 / ahead; distinct = distinct op text; non-trivial = at least one attestation became observed",
@@ -77,6 +78,7 @@ PROPS = {
     "C11": dict(
         lean_modules=["PalomaModel.Props.C11"], gen=["Claims.lean"],
         harness_test="TestC11",
+        extra_tests=[{"test": "TestC11Keeper", "dir": "C11K", "n_quick": 60, "n_thorough": 600}],
         n_quick=1500, n_thorough=20000, thorough_seeds=8,
         spec_ops=[],
         rule="random claims of the three submittable claim types (uint64 fields over edge values, amounts nil/0/negative/2^256-1, strings incl. '/', ',', '=', NUL, non-ASCII, eth and bech32 addresses); "
